@@ -1141,7 +1141,7 @@ func (schema *Schema) validate(ctx context.Context, stack []*Schema) ([]*Schema,
 	}
 
 	if v := schema.Default; v != nil && !validationOpts.schemaDefaultsValidationDisabled {
-		if err := schema.VisitJSON(v); err != nil {
+		if err := schema.VisitJSON(v, patternOptions(ctx)...); err != nil {
 			return stack, fmt.Errorf("invalid default: %w", err)
 		}
 	}
